@@ -247,11 +247,18 @@ impl Monitor for C04 {
             ("chains", tier.pick(1000000, 100000000)),
             ("ethertype", tier.pick(65_536, 65_536 * 2)),
             ("corpus", tier.pick(400_000, 8_000_000)),
+            ("api", tier.pick(400_000, 8_000_000)),
         ]
     }
 
     fn run_case(&mut self, engine: &str, idx: u64, rng: &mut Prng, rep: &mut Report) {
         match engine {
+            "api" => {
+                let mut o = if rng.bool() { GenOpts::clean() } else { GenOpts::hostile() };
+                o.start = gen::StartSel::Eth;
+                let case = gen::gen_case(rng, &o);
+                super::api::c04_accessors(rep, &case.bytes);
+            }
             "corpus" => match gen::corpus::case(idx, rng) {
                 Some(case) => {
                     rep.count("corpus_cases");
